@@ -249,11 +249,16 @@ def oracle(case, obs, net, steps, leaves):
     bt = case["tree"]
     spec = refimpl.spec_costs(net, bt)
     rows = {tuple(r["leaves"]): r for r in spec["rows"]}
-    B = batch_ixs(net)
+    # the indices simplify_batch removed on this run: which of the all-tensor indices it removes is the
+    # implementation's choice; the property only needs the figures to be those of the network without them
+    B = obs["proc_batch"]["removed"]
     specB = refimpl.spec_costs(net, bt, removed=B)
     rowsB = {tuple(r["leaves"]): r for r in specB["rows"]}
     n = len(net.inputs)
     bad = []
+    if not set(B) <= set(batch_ixs(net)):
+        bad.append(({"site": "ContractionProcessor.simplify_batch", "kind": "removed-index-not-on-all-tensors"},
+                    (B, batch_ixs(net))))
     for idx, (a, b, k) in enumerate(steps):
         s = rows[leaves[k]]
         t = obs["tree"][idx]
@@ -284,9 +289,6 @@ def oracle(case, obs, net, steps, leaves):
     for mode, want in (("proc_single", spec["flops"]), ("proc_raw", spec["flops"]), ("proc_batch", specB["flops"])):
         if mode in obs and obs[mode]["flops"] != want:
             bad.append(({"site": "ContractionProcessor.flops", "kind": mode}, (obs[mode]["flops"], want)))
-    if obs["proc_batch"]["removed"] != B:
-        bad.append(({"site": "ContractionProcessor.simplify_batch", "kind": "removed"},
-                    (obs["proc_batch"]["removed"], B)))
     if obs["proc_batch"]["flops"] * prod(net.sizes[ix] for ix in B) != obs["tree_total"]:
         bad.append(({"site": "ContractionProcessor.flops", "kind": "batch-factor"},
                     (obs["proc_batch"]["flops"], B, obs["tree_total"])))
@@ -423,7 +425,7 @@ def check_case(ctx, drv, case):
         bad += b2
         ctx.count("optimizer_runs")
     for sig, detail in bad:
-        ctx.violation(sig, {"case": case, "detail": detail},
+        ctx.violation(sig, {"case": case, "detail": detail, "signature": sig},
                       "simulator / reported cost differs from the tree: %s %s" % (sig, str(detail)[:200]))
         ctx.count("oracle_mismatch:" + sig["site"])
     if drv is not None:
@@ -457,17 +459,36 @@ def search(ctx):
         if case.get("opt"):
             bad += optimizer_oracle(case, net)[0]
         for sig, detail in bad:
-            if ctx.violation(sig, {"case": case, "detail": detail}, "simulator differs from the tree: %s" % sig):
+            if ctx.violation(sig, {"case": case, "detail": detail, "signature": sig},
+                             "simulator differs from the tree: %s" % sig):
                 found = True
         if found:
             break
     return found
 
 
+def replay_verdict(ctx, obj, sigs):
+    """True = the property holds on this input. If the file records the signature of the failure it was
+    written for, the replay fails exactly when that signature recurs; a hand-written file without one fails
+    on any disagreement that is not a listed known finding."""
+    recorded = obj.get("signature")
+    if recorded is not None:
+        return not any(s == recorded for s in sigs)
+    known = [e for e in getattr(ctx, "_known", []) if e.get("property") == ctx.prop and e.get("kind") == "known"]
+
+    def is_known(s):
+        return any(all(s.get(k) == v for k, v in e["match"].items()) for e in known)
+    return not any(not is_known(s) for s in sigs)
+
+
 def replay(ctx, obj):
+    if "case" not in obj:
+        print("# nothing to re-execute: this file records an undischarged obligation / correspondence "
+              "(no failing input was found)")
+        return True
     case = obj["case"]
     obs, net, steps, leaves = observe(case)
     bad = oracle(case, obs, net, steps, leaves)
     if case.get("opt"):
         bad += optimizer_oracle(case, net)[0]
-    return not bad
+    return replay_verdict(ctx, obj, [sig for sig, _ in bad])
